@@ -88,7 +88,7 @@ CLAIMS = {
     'C12': dict(
         text='Kernel only: (a) every lowered unit (all of them: the harnesses of every unit are registered for C12 as well) carries CBMC bounds / pointer / division / shift obligations on every harness: for any input satisfying the stated invariants those functions never index out of range; '
              '(b) the arithmetic branches of eval can only end in a value or a located Runtime error: explicit no-trap obligations on every signed / and % (INT_MIN / -1, x / 0), no raw C++ exception from literal conversion '
-             '(std::stoi / stoll / stof modelled as possibly failing on long text), nor from the lexer (string_view::substr), the version parser or the qubit bookkeeping; (c) no vtable entry dangles (unit VTB, see C08): found and repaired - a SIGSEGV on two virtual overloads of one name; (d) element reads a[i] and stores a[i] = v (unit ASTORE): every access to the element vector is inside it for ANY int index - a negative or too large index computed at run time is a located Runtime error.',
+             '(std::stoi / stoll / stof modelled as possibly failing on long text), nor from the lexer (string_view::substr), the version parser or the qubit bookkeeping; (c) constant folding in the analyser (unit CFOLD, the BinaryExpression branch of evaluateConstInt) never traps: zero divisors are Semantic errors, x % -1 is 0, INT_MIN / -1 is a Semantic error (found and repaired: SIGFPE on `(-2147483647 - 1) % -1`); (c2) no vtable entry dangles (unit VTB, see C08): found and repaired - a SIGSEGV on two virtual overloads of one name; (d) element reads a[i] and stores a[i] = v (unit ASTORE): every access to the element vector is inside it for ANY int index - a negative or too large index computed at run time is a located Runtime error.',
         note=TB + 'NOT covered (stated so nobody reads a green check as covering it): container / lifetime behaviour that the lowering abstracts away - vtable pointers into a growing std::vector, teardown order after an error with a live '
              'qubit-owning object (a confirmed SIGSEGV, design_probes/repro/C12_runtime_error_with_live_object_segv.bloch), recursion depth, null references, the class system. Signed + - * overflow is treated as wrapping (no trap).',
         ref='DESIGN.md §4 C12'),
